@@ -6,6 +6,7 @@ import (
 	"log"
 	"net"
 	"net/http"
+	"sync"
 	"time"
 
 	"github.com/buildbuildio/pebbles/common/verifhook"
@@ -32,7 +33,38 @@ func (sd subscriptionDict) CleanAll() {
 	}
 }
 
-func sendHeartbeat(ctx context.Context, conn net.Conn) error {
+// wsConn serialises the writers of one websocket connection (every Listen, the heartbeat,
+// the handler): a frame is a header write followed by a payload write, so two unsynchronised
+// writers can interleave their halves.
+type wsConn struct {
+	net.Conn
+	wmu sync.Mutex
+}
+
+// writeText writes one whole text frame under the write lock.
+func (c *wsConn) writeText(p []byte) error {
+	verifhook.At("W.lock", c)
+	c.wmu.Lock()
+	defer c.wmu.Unlock()
+	return wsutil.WriteServerText(c.Conn, p)
+}
+
+// writeClose writes the normal-closure frame under the write lock.
+func (c *wsConn) writeClose() error {
+	verifhook.At("W.lock", c)
+	c.wmu.Lock()
+	defer c.wmu.Unlock()
+	return ws.WriteFrame(c.Conn, ws.NewCloseFrame(ws.NewCloseFrameBody(ws.StatusNormalClosure, "")))
+}
+
+// Write is what wsutil's control-frame replies (pong, close echo: one Write each) go through.
+func (c *wsConn) Write(p []byte) (int, error) {
+	c.wmu.Lock()
+	defer c.wmu.Unlock()
+	return c.Conn.Write(p)
+}
+
+func sendHeartbeat(ctx context.Context, conn *wsConn) error {
 	timeTicker := time.NewTicker(time.Second * 4)
 	defer timeTicker.Stop()
 
@@ -43,7 +75,7 @@ func sendHeartbeat(ctx context.Context, conn net.Conn) error {
 	for {
 		select {
 		case <-timeTicker.C:
-			if err := wsutil.WriteServerText(conn, bMsg); err != nil {
+			if err := conn.writeText(bMsg); err != nil {
 				return err
 			}
 		case <-ctx.Done():
@@ -62,10 +94,11 @@ func (g *Gateway) subscriptionHandler(w http.ResponseWriter, r *http.Request) {
 		},
 	}
 
-	conn, _, _, err := upgrader.Upgrade(r, w)
+	rawConn, _, _, err := upgrader.Upgrade(r, w)
 	if err != nil {
 		return
 	}
+	conn := &wsConn{Conn: rawConn}
 
 	subDict := make(subscriptionDict)
 
@@ -75,23 +108,13 @@ func (g *Gateway) subscriptionHandler(w http.ResponseWriter, r *http.Request) {
 			recover()
 		}()
 		verifhook.At("H.exit", conn)
+		// close all running handlers and the connection whatever happens to the close frame
+		defer subDict.CleanAll()
+		defer verifhook.At("H.cleanAll", conn)
+		defer conn.Close()
+		defer verifhook.At("H.connClose", conn)
 		// gracefully close connection
-		body := ws.NewCloseFrameBody(ws.StatusNormalClosure, "")
-		frame := ws.NewCloseFrame(body)
-		if err := ws.WriteHeader(conn, frame.Header); err != nil {
-			return
-		}
-		if _, err := conn.Write(body); err != nil {
-			return
-		}
-
-		// close conn
-		verifhook.At("H.connClose", conn)
-		conn.Close()
-
-		// close all running handlers
-		verifhook.At("H.cleanAll", conn)
-		subDict.CleanAll()
+		conn.writeClose()
 	}()
 
 	for {
@@ -116,7 +139,7 @@ func (g *Gateway) subscriptionHandler(w http.ResponseWriter, r *http.Request) {
 			if err != nil {
 				return
 			}
-			if err := wsutil.WriteServerText(conn, bresp); err != nil {
+			if err := conn.writeText(bresp); err != nil {
 				return
 			}
 			// start sending heartbeat
@@ -125,6 +148,9 @@ func (g *Gateway) subscriptionHandler(w http.ResponseWriter, r *http.Request) {
 		// Let event handlers deal with starting operations
 		case requests.SubStart:
 			request := subMsg.Payload
+			if request == nil {
+				return
+			}
 			request.Original = r
 
 			query, qerr := gqlparser.LoadQuery(g.schema, request.Query)
@@ -155,6 +181,8 @@ func (g *Gateway) subscriptionHandler(w http.ResponseWriter, r *http.Request) {
 				return
 			}
 
+			// a start re-using a live id replaces that subscription
+			subDict.Clean(subMsg.ID)
 			subDict[subMsg.ID] = subEntry
 
 			go subEntry.Listen(conn)
